@@ -182,11 +182,14 @@ def saturate(eqs, targets, rounds=2, maxdeg=6, max_lemmas=40000, ineqs=(), pairs
     known = set(targets)
     for h in eqs:
         known.update(h.t.keys())
+    t_start = time.time()
     for rnd in range(rounds):
         nxt = set()
         for t in frontier:
             if not t:
                 continue
+            if time.time() - t_start > 20.0:
+                return lemmas
             mt = _mask(t)
             nmt = ~mt
             cand = set()
@@ -304,6 +307,10 @@ def prove(ctx: Ctx, goals, rounds=2, maxdeg=6, timeout_ms=20000, extra=(), produ
         L.s.add(L.atom("ge", pr))
     neg = {"eq": "ne", "ge": "lt", "gt": "le", "le": "gt", "lt": "ge", "ne": "eq"}
     for g in todo:
+        if ctx.options.get("deadline") and time.time() > ctx.options["deadline"]:
+            g.status = "open"
+            g.detail = g.detail or "time budget of the configuration exhausted"
+            continue
         L.s.push()
         L.s.add(L.atom(neg[g.kind], g.p))
         t1 = time.time()
